@@ -220,6 +220,15 @@ EXPRS = ["x", "y", "z", "x + ZeroExt(1, y)", "x & 3", "If(b, x, ZeroExt(1, y))",
          "If(ULT(x, 8), z, y)"]
 SMALL_EXPRS = ["x", "y", "x + ZeroExt(1, y)"]
 BOOLS = ["b", "ULT(x, 3)", "x == 5", "Or(x == 1, x == 2)", "SLT(y, 0)", "ULE(x, 15)", "Not(b)", "And(ULT(x, 3), UGE(x, 8))"]
+# constraints whose (un)satisfiability only a solver sees (squares mod 16 are 0, 1, 4, 9; x*x + x is even): nothing the
+# simplifier turns into `false`, so whoever holds them has to CHECK them
+OPAQUE = {"x": ["x * x == 3", "x * x + x == 1", "x * x * x == 5", "x * x == 4", "(x * x) & 2 == 2", "x * x == 9"],
+          "y": ["y * y == 3", "y * y + y == 1", "y * y == 4", "y * y * y == 5"],
+          "z": ["z * z == 5", "z * z + z == 3", "z * z == 1"]}
+# constraints tying two variables together until one of them is known
+LINKS = {("x", "y"): ["UGT(x, ZeroExt(1, y))", "ULT(x, ZeroExt(1, y))", "x != ZeroExt(1, y)", "ZeroExt(1, y) == x + 1", "x + ZeroExt(1, y) == 9"],
+         ("x", "z"): ["UGT(x, ZeroExt(1, z))", "ULT(x, ZeroExt(1, z))", "x != ZeroExt(1, z)"],
+         ("y", "z"): ["z == y", "UGT(z, y)", "ULT(z, y)", "y + z == 7", "SGE(y ^ z, 0)", "z != y"]}
 
 
 # ----------------------------------------------------------------------------------------------- histories
@@ -228,17 +237,24 @@ BOOLS = ["b", "ULT(x, 3)", "x == 5", "Or(x == 1, x == 2)", "SLT(y, 0)", "ULE(x, 
 #  solution{e,v,extra}  is_true/is_false{e,extra}  simplify  downsize  branch (creates solver index len(solvers))
 
 def gen_history(rng, length, calpha=CONSTRAINTS, ealpha=EXPRS, balpha=BOOLS, uni=None, max_solvers=4,
-                weights=None, threads=0, replace=0.0, replace_any=False):
+                weights=None, threads=0, replace=0.0, replace_any=False, symv=0.0, first_eq=0.0, contra=0.0, prefix=None):
+    """symv: share of solution() calls whose value is itself a symbolic expression (of the width of `e`);
+    first_eq: share of FIRST constraints of a solver (none added to it or its ancestors yet) that are `variable == constant`;
+    contra: share of add() calls that contradict a constraint the solver already holds SYNTACTICALLY (v == c against
+    v == c' / v != c, c against Not(c)), alone or - more often - in one call together with a constraint over other variables;
+    prefix: calls made before (absolute addressing; may create solvers by branch / blank_copy / combine / merge, not split):
+    the random calls are appended to it."""
     if threads:
         # thread hand-off: the same history, each call tagged with the thread that makes it (runs of calls per thread)
-        hist, t = gen_history(rng, length, calpha, ealpha, balpha, uni, max_solvers, weights, replace=replace, replace_any=replace_any), 0
+        hist, t = gen_history(rng, length, calpha, ealpha, balpha, uni, max_solvers, weights, replace=replace, replace_any=replace_any,
+                              symv=symv, first_eq=first_eq, contra=contra, prefix=prefix), 0
         for d in hist:
             if rng.random() < 0.3:
                 t = rng.randrange(threads + 1)
             if t:
                 d["t"] = t
         return hist
-    hist, nsolv = [], 1
+    hist, nsolv = [dict(d) for d in (prefix or [])], 1
     w = weights or {"add": 22, "satisfiable": 8, "eval": 14, "batch_eval": 6, "min": 11, "max": 11, "solution": 8,
                     "is_true": 2, "is_false": 2, "simplify": 4, "downsize": 2, "branch": 5}
     names, ws = list(w), list(w.values())
@@ -255,6 +271,22 @@ def gen_history(rng, length, calpha=CONSTRAINTS, ealpha=EXPRS, balpha=BOOLS, uni
     # symbolic side is a compound expression queried before (ReplacementFrontend keys its cache by such sides)
     queried = {0: []}
     used = {0: set()}      # variables the solver's constraints mention (for `replace`)
+    held = {0: []}         # the constraints added to the solver, as written (for `contra` / `first_eq`)
+    for d in hist:
+        s = d["s"]
+        if d["op"] == "add" and s in held:
+            held[s] += d["cs"]
+            for c in d["cs"]:
+                used[s] |= _vars_of(c)
+        elif d["op"] in ("eval", "min", "max") and s in queried and d["e"] != "b" and d["e"] not in queried[s]:
+            queried[s].append(d["e"])
+        elif d["op"] in ("branch", "blank_copy", "combine", "merge"):
+            src = s if d["op"] == "branch" and s in held else None
+            queried[nsolv] = list(queried[src]) if src is not None else []
+            used[nsolv] = set(used[src]) if src is not None else set()
+            held[nsolv] = list(held[src]) if src is not None else []
+            nsolv += 1
+    max_solvers = max(max_solvers, nsolv)
     for _ in range(length):
         op = rng.choices(names, ws)[0]
         s = rng.randrange(nsolv)
@@ -280,12 +312,18 @@ def gen_history(rng, length, calpha=CONSTRAINTS, ealpha=EXPRS, balpha=BOOLS, uni
                 v, c = rng.choice(fresh), rng.randrange(8)
                 d["cs"] = ["(%s) == %d" % (v, c)]
                 d["repl"] = [v, c]
+            elif first_eq and not held[s] and rng.random() < first_eq:
+                v = rng.choice(["x", "x", "y", "z"])
+                d["cs"] = ["%s == %d" % (v, rng.randrange(8))]
+            elif contra and held[s] and rng.random() < contra:
+                d["cs"] = contradicting_add(rng, held[s], calpha)
             elif q and rng.random() < 0.15:
                 d["cs"] = ["(%s) == %d" % (rng.choice(q), rng.randrange(8))]
             else:
                 d["cs"] = [rng.choice(calpha) for _ in range(1 if rng.random() < 0.8 else 2)]
             for c in d["cs"]:
                 used[s] |= _vars_of(c)
+            held[s] += d["cs"]
         elif op == "satisfiable":
             d["extra"] = extra()
         elif op == "eval":
@@ -304,6 +342,11 @@ def gen_history(rng, length, calpha=CONSTRAINTS, ealpha=EXPRS, balpha=BOOLS, uni
                 q.append(d["e"])
         elif op == "solution":
             d.update(e=rng.choice(bv_exprs), v=rng.randrange(16), extra=extra())
+            if symv and rng.random() < symv:
+                # the value asked about is itself symbolic (often over other variables than e)
+                same = [t for t in bv_exprs if t != d["e"] and _size_of(t) == _size_of(d["e"])]
+                if same:
+                    d["v"] = rng.choice(same)
         elif op in ("is_true", "is_false"):
             d.update(e=rng.choice(balpha), extra=extra())
         elif op == "unsat_core":
@@ -313,16 +356,46 @@ def gen_history(rng, length, calpha=CONSTRAINTS, ealpha=EXPRS, balpha=BOOLS, uni
             if rng.random() < 0.5:
                 hist.append(d)
                 d = {"s": s, "op": "satisfiable", "extra": []}
-        elif op in ("split", "combine", "merge"):
+        elif op in ("split", "combine", "merge", "blank_copy"):
             pass
         elif op == "branch":
             if nsolv >= max_solvers:
                 continue
             queried[nsolv] = list(q)
             used[nsolv] = set(used[s])
+            held[nsolv] = list(held[s])
             nsolv += 1
         hist.append(d)
     return hist
+
+
+def _size_of(e):
+    if not _UNI:
+        _UNI.append(Universe())
+    a = _UNI[0].parse(e)
+    return a.size() if hasattr(a, "size") else 0
+
+
+def contradicting_add(rng, held, calpha):
+    """an add() that syntactically contradicts a constraint written in `held`: the contradicting constraint alone, or
+    (2 of 3) in one call with a constraint over other variables (the order within the call is random)"""
+    import re
+    c = rng.choice(held)
+    m = re.fullmatch(r"(.+) == (\d+)", c)
+    if m and m.group(1).count("(") == m.group(1).count(")") and rng.random() < 0.8:
+        lhs, k = m.group(1), int(m.group(2))
+        lhs = lhs if re.fullmatch(r"\w+|\([^()]*\)", lhs) else "(%s)" % lhs
+        bad = "%s == %d" % (lhs, (k + rng.randrange(1, 7)) % 8) if rng.random() < 0.6 else "%s != %d" % (lhs, k)
+    else:
+        bad = {"b": "Not(b)", "Not(b)": "b", "true": "false"}.get(c, "Not(%s)" % c)
+    if rng.random() < 0.34:
+        return [bad]
+    other = [t for t in calpha if _vars_of(t) and not _vars_of(t) & _vars_of(bad)]
+    if not other:
+        return [bad]
+    cs = [rng.choice(other), bad]
+    rng.shuffle(cs)
+    return cs
 
 
 _VARS_OF = {}
@@ -390,17 +463,21 @@ def gen_combine_history(rng, length=0, calpha=None, ealpha=None):
     return hist
 
 
-def gen_struct_history(rng, length, calpha=None, ealpha=None, weights=None, span=6):
-    """histories with split / combine / merge (relative solver addressing, see run_history)"""
+def gen_struct_history(rng, length, calpha=None, ealpha=None, weights=None, span=6, prefix=None, keep_s=0.0, **gen):
+    """histories with split / combine / merge / blank_copy (relative solver addressing, see run_history: indices are taken
+    modulo the number of solvers alive, so -1 is the solver created last).  `prefix`: calls made before, kept as they are;
+    keep_s: share of calls that stay on the solver the underlying generator chose (it tracks per solver what was added and
+    queried, which is what its directed follow-ups - `contra`, cache-directed queries - go by); **gen goes to gen_history."""
     calpha = calpha or CONSTRAINTS
     base = gen_history(rng, length, calpha=calpha, ealpha=ealpha or EXPRS, max_solvers=99,
                        weights=weights or {"add": 30, "satisfiable": 8, "eval": 12, "batch_eval": 3, "min": 6, "max": 6, "solution": 5,
-                                           "simplify": 4, "downsize": 1, "branch": 8, "split": 5, "combine": 6, "merge": 7})
-    out = []
+                                           "simplify": 4, "downsize": 1, "branch": 8, "split": 5, "combine": 6, "merge": 7}, **gen)
+    out = [dict(d) for d in (prefix or [])]
     for d in base:
         d = dict(d)
         d["rel"] = True
-        d["s"] = rng.randrange(span)
+        if not (keep_s and rng.random() < keep_s):
+            d["s"] = rng.randrange(span)
         if d["op"] == "combine":
             d["others"] = [rng.randrange(span) for _ in range(rng.choice([1, 1, 2]))]
         elif d["op"] == "merge":
@@ -409,6 +486,171 @@ def gen_struct_history(rng, length, calpha=None, ealpha=None, weights=None, span
             d["anc"] = rng.randrange(span) if rng.random() < 0.3 else None
         out.append(d)
     return out
+
+
+# ----------------------------------------------------------------------------------------------- directed shapes
+# Each returns the opening calls of a history (random within the shape); gen_directed appends random calls to it.
+
+def _add(cs, s=0):
+    return {"s": s, "op": "add", "cs": list(cs)}
+
+
+def _query(rng, s, exprs, big=True):
+    r = rng.random()
+    if r < 0.3:
+        return {"s": s, "op": "satisfiable", "extra": []}
+    if r < 0.65:
+        return {"s": s, "op": "eval", "e": rng.choice(exprs), "n": 20 if big else rng.choice([1, 2, 3]), "extra": []}
+    if r < 0.9:
+        return {"s": s, "op": rng.choice(["min", "max"]), "e": rng.choice(exprs), "signed": rng.random() < 0.3, "extra": []}
+    return {"s": s, "op": "batch_eval", "es": [rng.choice(exprs), rng.choice(["x", "y", "z"])], "n": 40, "extra": []}
+
+
+def prefix_unchecked_simplify(rng):
+    """Constraints are added WITHOUT any question in between: `p == c`, a constraint tying q to p, one or two constraints on q
+    alone whose (un)satisfiability only a solver sees, often something about a third variable; then a call that
+    simplifies (simplify() itself, or min / max / eval(n > 1), which simplify first) - on the solver or on a branch of it.
+    Once p is known the tie no longer mentions it: what was one connected set falls apart, and what the parts say has never
+    been checked.  Then questions about satisfiability and about the OTHER variables."""
+    vs = ["x", "y", "z"]
+    rng.shuffle(vs)
+    p, q, r = vs
+    adds = [["%s == %d" % (p, rng.randrange(8))], [rng.choice(LINKS[tuple(sorted((p, q)))])]]
+    body = [rng.choice(OPAQUE[q]) for _ in range(rng.choice([1, 1, 2]))]
+    plain = [c for c in CONSTRAINTS if _vars_of(c) == {q}]
+    if plain and rng.random() < 0.4:
+        body.append(rng.choice(plain))
+    adds += [[c] for c in body]
+    free = [c for c in CONSTRAINTS if _vars_of(c) and _vars_of(c) <= {r, "b"}]
+    if rng.random() < 0.7:
+        adds.append([rng.choice(free)])
+    if rng.random() < 0.5:
+        rng.shuffle(adds)
+    if len(adds) > 2 and rng.random() < 0.3:     # two of the add() calls as one
+        i = rng.randrange(len(adds) - 1)
+        adds[i:i + 2] = [adds[i] + adds[i + 1]]
+    hist = [_add(cs) for cs in adds]
+    t, other = 0, None
+    if rng.random() < 0.35:
+        hist.append({"s": 0, "op": "branch"})
+        t = rng.choice([0, 1])
+        other = 1 - t
+    rex = [e for e in EXPRS if _vars_of(e) and _vars_of(e) <= {r, "b"}] or [r]
+    k = rng.random()
+    if k < 0.5:
+        hist.append({"s": t, "op": "simplify"})
+    elif k < 0.75:
+        hist.append({"s": t, "op": rng.choice(["min", "max"]), "e": rng.choice(rex), "signed": rng.random() < 0.3, "extra": []})
+    elif k < 0.9:
+        hist.append({"s": t, "op": "eval", "e": rng.choice(rex), "n": rng.choice([2, 5, 20]), "extra": []})
+    else:
+        hist.append({"s": t, "op": "batch_eval", "es": [rng.choice(rex), r], "n": 5, "extra": []})
+    for _ in range(rng.choice([1, 2, 3])):
+        hist.append(_query(rng, t, rex + [r]))
+    if other is not None:
+        hist.append(_query(rng, other, rex + [r]))
+    if rng.random() < 0.5:
+        hist.append(_query(rng, t, [q, p]))
+    return hist
+
+
+def prefix_empty_branch(rng):
+    """A solver that holds nothing yet is branched (once or twice); the FIRST constraint of one of the solvers is
+    `v == c`, the others get a constraint over the same v, are asked something small (so that they know a model or two) and
+    then for everything: all values, the extrema."""
+    hist, n = [], 1
+    for _ in range(rng.choice([1, 1, 2])):
+        hist.append({"s": rng.randrange(n), "op": "branch"})
+        n += 1
+    v = rng.choice(["x", "x", "y", "z"])
+    narrowed = rng.randrange(n)
+    others = [i for i in range(n) if i != narrowed]
+    rng.shuffle(others)
+    rng_c = [c for c in CONSTRAINTS if _vars_of(c) == {v} and " == " not in c] or ["ULE(x, 11)"]
+    steps = [[_add(["%s == %d" % (v, rng.randrange(8))], narrowed)]]
+    if rng.random() < 0.5:
+        steps[0].append(_query(rng, narrowed, [v]))
+    for o in others:
+        st = [_add([rng.choice(rng_c)], o)]
+        if rng.random() < 0.8:
+            st.append({"s": o, "op": "satisfiable", "extra": []} if rng.random() < 0.5 else
+                      {"s": o, "op": "eval", "e": v, "n": rng.choice([1, 2, 3]), "extra": []})
+        for _ in range(rng.choice([1, 2])):
+            st.append({"s": o, "op": "eval", "e": v, "n": 20, "extra": []} if rng.random() < 0.5 else
+                      {"s": o, "op": rng.choice(["min", "max"]), "e": v, "signed": False, "extra": []})
+        steps.append(st)
+    rng.shuffle(steps)
+    if rng.random() < 0.5:
+        # interleave: the narrowing add first / last does not matter for what each solver may answer
+        flat = [d for st in steps for d in st]
+    else:
+        flat = [d for d in steps[0]] + [d for st in steps[1:] for d in st]
+    return hist + flat
+
+
+def prefix_early_pickle(rng):
+    """A solver is given constraints (several in one add() call; some contradicting syntactically what it already holds)
+    and goes through pickle BEFORE it was ever asked anything; the first question comes afterwards."""
+    hist, held = [], []
+    for i in range(rng.choice([1, 2, 2, 3, 4])):
+        if held and rng.random() < 0.5:
+            cs = contradicting_add(rng, held, CONSTRAINTS)
+        elif not held and rng.random() < 0.5:
+            cs = ["%s == %d" % (rng.choice(["x", "y", "z"]), rng.randrange(8))]
+        else:
+            cs = [rng.choice(CONSTRAINTS) for _ in range(rng.choice([1, 1, 2, 3]))]
+        held += cs
+        hist.append(_add(cs))
+    t = 0
+    if rng.random() < 0.25:
+        hist.append({"s": 0, "op": "branch"})
+        t = rng.choice([0, 1])
+        if rng.random() < 0.5:
+            hist.append(_add(contradicting_add(rng, held, CONSTRAINTS) if rng.random() < 0.5 else [rng.choice(CONSTRAINTS)], t))
+    hist.append({"s": t, "op": "pickle"})
+    if rng.random() < 0.15:
+        hist.append({"s": t, "op": "pickle"})
+    hist.append({"s": t, "op": "satisfiable", "extra": []} if rng.random() < 0.5 else _query(rng, t, ["x", "y", "z", "x + ZeroExt(1, y)"]))
+    return hist
+
+
+def prefix_unsat_then_structure(rng, calpha, ealpha):
+    """A solver holds a syntactic contradiction next to independent constraints, is asked once (typically: satisfiable?, in
+    whatever mode the caller marks the queries with) and is then split / merged with another solver without a common
+    ancestor / combined / blank-copied; the solvers that come out are asked."""
+    hist = [{"s": 0, "op": "branch"}]                      # solver 1: the partner of merge / combine, created while all is empty
+    c1 = rng.choice([c for c in calpha if _vars_of(c)])
+    ind = [c for c in calpha if _vars_of(c) and not _vars_of(c) & _vars_of(c1)] or [c1]
+    adds = [[c1], contradicting_add(rng, [c1], calpha)]
+    if rng.random() < 0.7:
+        adds.insert(rng.randrange(3), [rng.choice(ind)])
+    hist += [_add(cs) for cs in adds]
+    hist.append(_add([rng.choice(ind)], 1))
+    hist.append({"s": 0, "op": "satisfiable", "extra": []} if rng.random() < 0.8 else _query(rng, 0, ealpha))
+    k = rng.random()
+    if k < 0.4:
+        hist.append({"s": 0, "op": "split"})
+    elif k < 0.65:
+        hist.append({"s": 0, "op": "merge", "others": [1], "conds": rng.choice([["b", "Not(b)"], ["true", "true"]]), "anc": None})
+    elif k < 0.85:
+        hist.append({"s": 0, "op": "blank_copy"})
+        if rng.random() < 0.5:
+            hist.append({"s": -1, "rel": True, "op": "add", "cs": [rng.choice(ind)]})
+    else:
+        hist.append({"s": 1, "op": "combine", "others": [0]})
+    for s in (-1, -2, -1):
+        q = _query(rng, s, ealpha)
+        q["rel"] = True
+        hist.append(q)
+    return hist
+
+
+PREFIXES = {"unchecked-simplify": prefix_unchecked_simplify, "empty-branch": prefix_empty_branch, "early-pickle": prefix_early_pickle}
+
+
+def gen_directed(rng, length, shape=None, **gen):
+    """a directed opening (PREFIXES) followed by `length` random calls"""
+    return gen_history(rng, length, prefix=PREFIXES[shape](rng), **gen)
 
 
 def all_short_histories(maxlen, calpha=SMALL_CONSTRAINTS, ealpha=SMALL_EXPRS):
@@ -473,11 +715,18 @@ def signed_val(v, w):
     return v - (1 << w) if v >> (w - 1) else v
 
 
+def solution_feasible(uni, d, sm):
+    """solution(e, v) with a symbolic v: is there a model (of the constraints and the extra constraints) in which both
+    have the same value"""
+    ve, vv = uni.values(uni.parse(d["e"])), uni.values(uni.parse(d["v"]))
+    return any(ve[i] == vv[i] for i in bits_of(sm))
+
+
 def judge_approx(uni, ref, d, outcome):
     """C13, second half: an approximate answer (exact=False, or SolverVSA) never excludes a value or a model that
     exists and never reports a satisfiable constraint set as unsatisfiable."""
     op, s = d["op"], d["s"]
-    if op in ("add", "simplify", "downsize", "branch"):
+    if op in ("add", "simplify", "downsize", "branch", "blank_copy"):
         return None if outcome[0] == "ok" else ("crash:" + str(outcome[1]), "%s raised %s" % (op, outcome[1:]))
     extra = [uni.parse(c) for c in d.get("extra", [])]
     sm = ref.satmask(s, extra)
@@ -518,8 +767,8 @@ def judge_approx(uni, ref, d, outcome):
         return None
     if op == "solution":
         e = uni.parse(d["e"])
-        feas = bool(uni.vmask(e).get(d["v"] % (1 << e.size()), 0) & sm)
-        return ("approx-excludes-value", "solution(%s, %d) = False but it is attainable" % (d["e"], d["v"])) if feas and not val else None
+        feas = solution_feasible(uni, d, sm) if isinstance(d["v"], str) else bool(uni.vmask(e).get(d["v"] % (1 << e.size()), 0) & sm)
+        return ("approx-excludes-value", "solution(%s, %s) = False but it is attainable" % (d["e"], d["v"])) if feas and not val else None
     if op in ("is_true", "is_false"):
         e = uni.parse(d["e"])
         if val:
@@ -535,7 +784,7 @@ def judge(uni, ref, d, outcome):
     """The property statement (C11 / C10-solver) evaluated on one answer.
     outcome = ("ok", value) | ("unsat", msg) | ("err", ExcTypeName, msg).   Returns None or (kind, explanation)."""
     op, s = d["op"], d["s"]
-    if op in ("add", "simplify", "downsize", "branch", "pickle"):
+    if op in ("add", "simplify", "downsize", "branch", "pickle", "blank_copy"):
         if outcome[0] != "ok":
             return ("crash:" + (outcome[1] if outcome[0] == "err" else "UnsatError"), "%s raised %s" % (op, outcome[1:]))
         return None
@@ -590,6 +839,11 @@ def judge(uni, ref, d, outcome):
         opt = (min if op == "min" else max)(V, key=key)
         if int(val) % (1 << w) != opt:
             return ("wrong-optimum", "%s(%s, signed=%s) = %s, true optimum %d (values %s)" % (op, d["e"], d["signed"], val, opt, sorted(V)))
+        return None
+    if op == "solution" and isinstance(d["v"], str):
+        feas = solution_feasible(uni, d, sm)
+        if bool(val) != feas:
+            return ("wrong-solution", "solution(%s, %s) = %s, brute force says %s" % (d["e"], d["v"], val, feas))
         return None
     if op == "solution":
         e = uni.parse(d["e"])
@@ -762,7 +1016,8 @@ def apply_op(uni, solvers, d):
             return ("ok", s.max(uni.parse(d["e"]), extra_constraints=ex, signed=d["signed"], **kw))
         if op == "solution":
             e = uni.parse(d["e"])
-            return ("ok", s.solution(e, d["v"] % (1 << e.size()), extra_constraints=ex, **kw))
+            v = uni.parse(d["v"]) if isinstance(d["v"], str) else d["v"] % (1 << e.size())
+            return ("ok", s.solution(e, v, extra_constraints=ex, **kw))
         if op == "is_true":
             return ("ok", s.is_true(uni.parse(d["e"]), extra_constraints=ex, **kw))
         if op == "is_false":
@@ -775,6 +1030,9 @@ def apply_op(uni, solvers, d):
             return ("ok", None)
         if op == "branch":
             solvers.append(s.branch())
+            return ("ok", len(solvers) - 1)
+        if op == "blank_copy":
+            solvers.append(s.blank_copy())
             return ("ok", len(solvers) - 1)
         if op == "unsat_core":
             return ("ok", tuple(s.unsat_core(extra_constraints=ex)))
@@ -808,6 +1066,8 @@ def ref_step(uni, ref, d):
         ref.add(d["s"], [uni.parse(c) for c in d["cs"]])
     elif d["op"] == "branch":
         ref.branch(d["s"])
+    elif d["op"] == "blank_copy":
+        ref.new([])
 
 
 class FaultInjector:
@@ -887,6 +1147,22 @@ class _Worker:
         self._t.join(5)
 
 
+def approx_stateless(uni, cls, kw, constraints, d, kind):
+    """does a fresh solver of class `cls` holding `constraints` (added in one call) fail the approximate call d the same way"""
+    try:
+        fresh = [SOLVER_CLASSES[cls](**kw)]
+        if constraints:
+            fresh[0].add(list(constraints))
+        d0 = dict(d, s=0)
+        d0.pop("rel", None)
+        ref = Ref(uni)
+        ref.add(0, list(constraints))
+        j = judge_approx(uni, ref, d0, apply_op(uni, fresh, d0))
+        return bool(j) and j[0] == kind
+    except Exception:  # noqa: BLE001
+        return False
+
+
 def run_history(uni, cls, cfg, hist, on_step=None, checks=None):
     """Run on the real code with the per-answer oracle.  Returns (failures, outcomes);
     failures = [(index, kind, explanation)].  History entries that reference a missing solver are skipped.
@@ -907,6 +1183,7 @@ def run_history(uni, cls, cfg, hist, on_step=None, checks=None):
         ref = Ref(uni)
         fails, outs = [], []
         pool = {}
+        origin = ["new"]      # per solver: the call that created it
 
         def run_op(d):
             # ops tagged "t": k run in worker thread k, strictly after everything before them (claripy frontends keep
@@ -934,7 +1211,7 @@ def run_history(uni, cls, cfg, hist, on_step=None, checks=None):
                 if d.get("anc") is not None:
                     d["anc"] %= len(solvers)
                 hist[k] = d
-            if d["s"] >= len(solvers):
+            if d["s"] >= len(solvers) or any(j >= len(solvers) for j in list(d.get("others", [])) + [d.get("anc") or 0]):
                 outs.append(("skip",))
                 continue
             if inj:
@@ -949,6 +1226,7 @@ def run_history(uni, cls, cfg, hist, on_step=None, checks=None):
                 pre = {"ref": [list(l) for l in ref.lists], "cons": [list(sv.constraints) for sv in solvers]}
                 out = run_op(d)
                 outs.append(out if out[0] != "ok" else ("ok", "<%s>" % d["op"]))
+                origin += [d["op"]] * (len(solvers) - len(origin))
                 j = judge_structure(uni, ref, solvers, d, out, pre)
                 if j:
                     fails.append((k, j[0] + structure_predicate(solvers[d["s"]], d), j[1]))
@@ -969,11 +1247,23 @@ def run_history(uni, cls, cfg, hist, on_step=None, checks=None):
                 ref.add(d["s"], [uni.parse(c) for c in d["cs"]])
             elif d["op"] == "branch" and out[0] == "ok":
                 ref.branch(d["s"])
+            elif d["op"] == "blank_copy" and out[0] == "ok":
+                ref.new([])           # a solver of the same kind that holds no constraints
+            origin += [d["op"]] * (len(solvers) - len(origin))
             outs.append(out)
             if d["op"] == "unsat_core":
                 j = judge_core(uni, ref, solvers[d["s"]], d, out)
             elif d.get("approx") or cls == "SolverVSA":  # approximate answers: over-approximation is all that is asked
                 j = judge_approx(uni, ref, d, out)
+                if j and not j[0].startswith("crash:"):
+                    # whose answer is it?  A solver of the same class that is given the same constraints from scratch and asked
+                    # the same question: if it answers alike, the approximate backend says so about these constraints
+                    # (":stateless"; C21-C25 own that); if not, the frontend's history made the difference - and for a
+                    # solver that split / combine / merge / blank_copy handed out, the predicate says so
+                    if approx_stateless(uni, cls, kw, ref.lists[d["s"]], d, j[0]):
+                        j = (j[0] + ":stateless", j[1])
+                    elif origin[d["s"]] in ("split", "combine", "merge", "blank_copy"):
+                        j = (j[0] + ":on-%s-result" % origin[d["s"]], j[1])
             else:
                 j = judge(uni, ref, d, out)
                 if j and j[0] == "value-on-unsat":
@@ -1015,7 +1305,7 @@ def _norm_out(d, out):
         if len(out[1]) >= d["n"]:
             return ("ok", "n values")        # more exist than were asked for: which ones come back is free
         return ("ok", tuple(sorted(tuple(t) if isinstance(t, (list, tuple)) else (t,) for t in out[1])))
-    if d["op"] in ("add", "simplify", "downsize", "branch", "pickle"):
+    if d["op"] in ("add", "simplify", "downsize", "branch", "pickle", "blank_copy"):
         return ("ok",)
     if d["op"] in ("min", "max"):
         # an optimum is a bit pattern: the caches hand back the unsigned reading, the solver path the signed one
@@ -1140,17 +1430,25 @@ def shrink(uni, cls, cfg, hist, kind, tries=2):
     def renumber(h, drop):
         # removing op `drop`; if it is a branch, ops on the created solver (and later ones) must shift
         d = h[drop]
-        if d["op"] != "branch" or d.get("rel"):
+        if d["op"] not in ("branch", "blank_copy") or d.get("rel") or any(q["op"] == "split" for q in h[:drop]):
             return [dict(q) for q in h[:drop] + h[drop + 1:]]
-        # index of the solver this branch created
-        idx = 1 + sum(1 for q in h[:drop] if q["op"] == "branch")
+        # index of the solver this call created
+        idx = 1 + sum(1 for q in h[:drop] if q["op"] in ("branch", "blank_copy", "combine", "merge"))
         out = []
         for q in h[:drop] + h[drop + 1:]:
-            if q["s"] == idx:
-                continue
             q2 = dict(q)
+            if q.get("rel"):
+                out.append(q2)
+                continue
+            refs = list(q.get("others", [])) + ([q["anc"]] if q.get("anc") is not None else [])
+            if q["s"] == idx or idx in refs:
+                continue
             if q["s"] > idx:
                 q2["s"] -= 1
+            if "others" in q:
+                q2["others"] = [j - 1 if j > idx else j for j in q["others"]]
+            if q.get("anc") is not None and q["anc"] > idx:
+                q2["anc"] -= 1
             out.append(q2)
         return out
 
@@ -1192,6 +1490,8 @@ def signature(prop, cls, cfg, hist, idx, kind):
         preds.append("signed" if d["signed"] else "unsigned")
     if d.get("extra"):
         preds.append("extra")
+    if isinstance(d.get("v"), str):
+        preds.append("symbolic-v")
     prior = set(q["op"] for q in hist[:idx] if q["s"] == d["s"] or q["op"] == "branch")
     for p in ("eval", "batch_eval", "min", "max", "solution", "simplify", "branch", "downsize", "pickle"):
         if p in prior:
